@@ -137,6 +137,8 @@ type Pool struct {
 	reg   bool
 	id    int
 	stats PoolStats
+	// poisoned: buffers currently in the pool whose capacity was overwritten with Poison
+	poisoned map[*bytes.Buffer]bool
 }
 
 // PoolStats are cumulative per-pool counters.
@@ -146,6 +148,10 @@ type PoolStats struct {
 	NilPuts          int
 	MaxCapPut        int // largest bytes.Buffer capacity ever Put
 	MaxCapSeen       int // largest bytes.Buffer capacity ever seen (Get or Put)
+	// WritesAfterPut: buffers whose poison (written over their whole capacity when they were
+	// Put) was no longer intact when they were handed out again: somebody wrote into a
+	// buffer it had already given back.
+	WritesAfterPut int
 }
 
 var (
@@ -190,6 +196,29 @@ func ResetRegistry() {
 }
 
 func (p *Pool) ID() int { return p.id }
+
+// AuditPoison counts the buffers still in the pool whose poison is no longer intact
+// (written to after they were Put). Call at the end of an execution.
+func (p *Pool) AuditPoison() int {
+	p.mu.Lock()
+	defer p.mu.Unlock()
+	n := 0
+	for _, it := range p.items {
+		b, ok := it.(*bytes.Buffer)
+		if !ok || !p.poisoned[b] {
+			continue
+		}
+		bs := b.Bytes()
+		bs = bs[:cap(bs)]
+		for _, c := range bs {
+			if c != Poison {
+				n++
+				break
+			}
+		}
+	}
+	return n
+}
 
 func (p *Pool) Stats() PoolStats {
 	p.mu.Lock()
@@ -238,8 +267,21 @@ func (p *Pool) Get() any {
 		x = p.New()
 		p.mu.Lock()
 	}
-	if b, ok := x.(*bytes.Buffer); ok && b.Cap() > p.stats.MaxCapSeen {
-		p.stats.MaxCapSeen = b.Cap()
+	if b, ok := x.(*bytes.Buffer); ok {
+		if b.Cap() > p.stats.MaxCapSeen {
+			p.stats.MaxCapSeen = b.Cap()
+		}
+		if p.poisoned[b] {
+			delete(p.poisoned, b)
+			bs := b.Bytes()
+			bs = bs[:cap(bs)]
+			for _, c := range bs {
+				if c != Poison {
+					p.stats.WritesAfterPut++
+					break
+				}
+			}
+		}
 	}
 	p.mu.Unlock()
 	return x
@@ -277,6 +319,10 @@ func (p *Pool) Put(x any) {
 			for i := range bs {
 				bs[i] = Poison
 			}
+			if p.poisoned == nil {
+				p.poisoned = map[*bytes.Buffer]bool{}
+			}
+			p.poisoned[b] = true
 		}
 	}
 	p.items = append(p.items, x)
